@@ -53,9 +53,17 @@ def mon_limit_df(result, pre, *a, **k):
 
     def near_not_exact(v, x):
         return x is not None and abs(v - float(x)) <= EPS and Fraction(v) != x
+
+    def on_axis(v, lim):
+        # the limit is literally the time of sample v on the float time axis (v / fs): the boundary coincides with the limit
+        return lim is not None and float(v) / float(fs) == float(lim)
     for i, ix in enumerate(pre_idx):
-        near = near_not_exact(L[i], xlo) or near_not_exact(N[i], xhi) or near_not_exact(N[i], xlo) or near_not_exact(L[i], xhi)
-        inside = (xlo is None or Fraction(L[i]) >= xlo) and (xhi is None or Fraction(N[i]) <= xhi)
+        lo_on, hi_on = on_axis(L[i], start), on_axis(N[i], stop)
+        if lo_on or hi_on:
+            count('C18:limit_df_boundary_coincidence_on_time_axis')
+        near = (near_not_exact(L[i], xlo) and not lo_on) or (near_not_exact(N[i], xhi) and not hi_on) or \
+            near_not_exact(N[i], xlo) or near_not_exact(L[i], xhi)
+        inside = (xlo is None or lo_on or Fraction(L[i]) >= xlo) and (xhi is None or hi_on or Fraction(N[i]) <= xhi)
         outside = (xlo is not None and Fraction(N[i]) < xlo) or (xhi is not None and Fraction(L[i]) > xhi)
         if near:
             count('C18:limit_df_boundary_coincidence_up_to_rounding')
@@ -217,6 +225,31 @@ def run_limit(sh, case, driver='limit'):
         sh.violate(case, v, driver)
 
 
+def run_boundaries(sh, df, fs, n, center, bounds, rng):
+    """A window opened (closed) exactly on every cycle boundary of the table: start (stop) is the time of that sample on the
+    float time axis, k / fs - for sampling rates that are not powers of two, fs * (k / fs) need not round back to k."""
+    from bycycle.utils import limit_df
+    for b in bounds:
+        for which in ('start', 'stop'):
+            t = float(b) / float(fs)
+            case = {'df': df, 'fs': fs, 'start': t if which == 'start' else None, 'stop': t if which == 'stop' else None,
+                    'reset_indices': bool(rng.random() < 0.5), 'n': n, 'window': 'every_boundary', 'center': center}
+            vs = []
+            try:
+                with quiet():
+                    limit_df(df.copy(), fs, start=case['start'], stop=case['stop'], reset_indices=case['reset_indices'])
+            except Exception as e:
+                vs.append({'mechanism': 'limit_df:' + attach.exc_mechanism(e),
+                           'message': 'limit_df raised %r for start=%r stop=%r on a %s-centred table' % (e, case['start'], case['stop'], center)})
+            vs += [v for v in attach.take_violations() if v['property'] in (PROP, '_monitor')]
+            for v in vs:
+                sh.violate(case, v, 'limit')
+            sh.cases += 1
+            if float(fs) * t != float(b):
+                attach.count('C18:limit_df_boundary_where_fs_times_t_does_not_round_back')
+    sh.note('window:every_boundary')
+
+
 def run_cols(sh, case, driver='columns'):
     from bycycle.utils import split_samples_df, drop_samples_df, flatten_dfs
     df = case['df']
@@ -331,6 +364,7 @@ def run(sh):
             sh.case_done(case, attach.COUNTS['C18:limit_df_window_cuts_and_keeps'] > before,
                          sample={'rows': len(df), 'center': center, 'fs': fs, 'start': case['start'], 'stop': case['stop'],
                                  'reset_indices': case['reset_indices'], 'window': kind})
+        run_boundaries(sh, df, fs, n, center, bounds, rng)
         c2 = {'df': df, 'center': center}
         run_cols(sh, c2)
         sh.case_done(c2, True, sample={'rows': len(df), 'center': center, 'op': 'split/drop'})
